@@ -723,6 +723,15 @@ func buildEntries() []entry {
 		case 3:
 			delta = 100000
 		}
+		if delta == 0 && pick(g.t, 8, "jmp_mid") == 0 {
+			// target in the middle of an instruction: the operand byte of PUSHINT8 0x13 is executed as PUSH3
+			g.p.jumpDelta(op, l, 1)
+			g.p.emit(opcode.PUSH1)
+			g.p.label(l)
+			g.p.emit(opcode.PUSHINT8, byte(opcode.PUSH3))
+			g.p.emit(opcode.PUSH2)
+			return
+		}
 		g.p.jumpDelta(op, l, delta)
 		g.p.emit(opcode.PUSH1)
 		g.p.label(l)
@@ -1161,6 +1170,41 @@ func buildEntries() []entry {
 		g.p.emit(op, sample(t, typeBytes, "to"))
 	}, opcode.ISTYPE, opcode.CONVERT)
 
+	// limits of the invocation stack (1024 contexts) and of TRY nesting (16 per context), reached by counted loops
+	add(1, func(g *single, op opcode.Opcode) {
+		p := g.p
+		if op == opcode.CALLL {
+			n := sample(g.t, []int{3, 1022, 1023, 1024, 1025}, "depth")
+			f, end := p.newLabel(), p.newLabel()
+			p.pushSmall(0)
+			p.label(f)
+			p.emit(opcode.INC)
+			p.emit(opcode.DUP)
+			p.pushSmall(n)
+			p.jump(opcode.JMPEQ, end)
+			p.jump(opcode.CALL, f)
+			p.label(end)
+			p.emit(opcode.RET)
+			return
+		}
+		n := sample(g.t, []int{2, 15, 16, 17}, "depth")
+		top, c := p.newLabel(), p.newLabel()
+		p.pushSmall(0)
+		p.label(top)
+		p.try(c, "-")
+		p.emit(opcode.INC)
+		p.emit(opcode.DUP)
+		p.pushSmall(n)
+		p.jump(opcode.JMPLT, top)
+		if rapid.Bool().Draw(g.t, "throw_at_depth") {
+			p.emit(opcode.THROW)
+		}
+		p.emit(opcode.RET)
+		p.label(c)
+		p.pushSmall(99)
+		p.emit(opcode.RET)
+	}, opcode.CALLL, opcode.TRYL)
+
 	// exception handling, single shapes
 	add(6, func(g *single, op opcode.Opcode) {
 		buildTrySingle(g, op)
@@ -1271,7 +1315,11 @@ func genSingle(t *rapid.T) Case {
 	if pick(t, 10, "tail") == 0 {
 		g.p.emit(opcode.DEPTH)
 	}
-	script := g.p.assemble(pick(t, 6, "long_forms") == 0)
+	long := pick(t, 6, "long_forms") == 0
+	script := g.p.assemble(long)
+	if l, ok := longForm[op]; ok && long {
+		op = l // attribute the case to the long form that was actually assembled
+	}
 	nt := g.nt
 	for _, v := range g.ints {
 		if nearBoundary256(v) || (negSensitive[op] && v.Sign() < 0) {
